@@ -44,17 +44,24 @@ type backend interface {
 
 var errSourceModified = errors.New("Write modified the caller's buffer")
 
-type trackBackend struct{ w *fwd.World }
+// noPid: VP8 without the picture-id field (the I bit is optional): nothing
+// but the sequence number is ever rewritten
+type trackBackend struct {
+	w     *fwd.World
+	noPid bool
+}
 
-func newTrackBackend() backend {
+func newTrackBackend() backend { return newTrackBackendPid(false) }
+
+func newTrackBackendPid(noPid bool) backend {
 	w := fwd.New(fwd.VP8, 1)
 	w.Down.SetLayer(rtpconn.VerifLayer{Tid: 0, WantedTid: 0, MaxTid: 2})
-	return &trackBackend{w}
+	return &trackBackend{w, noPid}
 }
 
 func (b *trackBackend) deliver(seq, pid uint16, tid int) (bool, uint16, error) {
 	p := media.VP8{Hdr: media.Hdr{Seq: seq, TS: uint32(pid) * 3000, Marker: true, PT: 96, SSRC: fwd.UpSSRC},
-		X: true, I: true, M: true, PictureID: pid & 0x7FFF, T: true, TID: uint8(tid), S: true,
+		X: true, I: !b.noPid, M: !b.noPid, PictureID: pid & 0x7FFF, T: true, TID: uint8(tid), S: true,
 		Body: []byte{byte(seq), byte(seq >> 8), 0x42}}
 	b.w.Rec.Take()
 	buf := p.Bytes()
@@ -84,7 +91,7 @@ func (b *trackBackend) state() string {
 }
 func (b *trackBackend) close() { b.w.Close() }
 func (b *trackBackend) clone() backend {
-	n := newTrackBackend().(*trackBackend)
+	n := newTrackBackendPid(b.noPid).(*trackBackend)
 	n.w.Down.CopyFrom(b.w.Down)
 	return n
 }
@@ -193,6 +200,8 @@ func (w *world) Ops() []seqx.Op {
 		ops = append(ops, op{Kind: "alt", N: 65536})
 		// a long run of withheld packets with nothing forwarded in between
 		ops = append(ops, op{Kind: "hiburst", N: 57400}, op{Kind: "hiburst", N: 65536})
+		// runs long enough for the interval table to be forgotten once (and twice) on the way
+		ops = append(ops, op{Kind: "hiburst", N: 16400}, op{Kind: "hiburst", N: 20000}, op{Kind: "hiburst", N: 32800})
 		if !core.Quick() {
 			ops = append(ops, op{Kind: "alt", N: 65535}, op{Kind: "alt", N: 131072})
 		}
@@ -519,6 +528,11 @@ func cfgFor(kind string, start uint16) seqx.Config {
 	case "mapmacro":
 		return seqx.Config{Name: fmt.Sprintf("mapmacro/start%d", start), Fresh: freshWorld(start, false, true),
 			MaxDepth: core.Pick(5, 7), Parallel: 1}
+	case "tracknopid":
+		return seqx.Config{Name: fmt.Sprintf("tracknopid/start%d", start), Fresh: func() seqx.World {
+			return &world{be: newTrackBackendPid(true), start: start, highest: -1, info: map[int64]*posInfo{},
+				outs: map[uint16]int64{}, lateHi: true}
+		}, MaxDepth: core.Pick(4, 6), Parallel: 1}
 	case "mapcycle":
 		return seqx.Config{Name: fmt.Sprintf("mapcycle/start%d", start), Fresh: func() seqx.World {
 			return &world{be: &mapBackend{constPid: true}, start: start, highest: -1, info: map[int64]*posInfo{},
@@ -528,7 +542,7 @@ func cfgFor(kind string, start uint16) seqx.Config {
 	panic(kind)
 }
 
-var kinds = []string{"track", "trackmacro", "map", "mapmacro", "mapcycle"}
+var kinds = []string{"track", "trackmacro", "map", "mapmacro", "mapcycle", "tracknopid"}
 
 func main() {
 	t0 := time.Now()
@@ -555,7 +569,7 @@ func main() {
 			if core.Quick() && strings.HasSuffix(k, "macro") && s != 1 && s != 8191 && s != 57344 && s != 65535 {
 				continue
 			}
-			if k == "mapcycle" && s != 1 && (core.Quick() || s != 65535) {
+			if (k == "mapcycle" || k == "tracknopid") && s != 1 && (core.Quick() || s != 65535) {
 				continue
 			}
 			i++
